@@ -834,7 +834,14 @@ fn main() {
 
 	let seeds: Vec<u64> = if let Some(path) = &ctx.replay {
 		let w: Value = serde_json::from_str(&std::fs::read_to_string(path).expect("replay")).expect("json");
-		vec![w["witness"]["seed"].as_u64().expect("seed in witness")]
+		match w["witness"]["seed"].as_u64() {
+			Some(s) => vec![s],
+			None => {
+				// recorded by a sub-run (real threads, sanitizer builds): there is no single seeded history to narrow down to
+				println!("replay: the witness names no history seed (sub-run {}); the whole workload has to be run again", w["witness"]["sub"]);
+				finish(&ctx, ev, violations, Some("the witness was recorded by a sub-run and names no single history".into()));
+			}
+		}
 	} else {
 		(0..ctx.tier.pick(6_000u64, 400_000)).map(|i| Rng::fork(ctx.seed, i).next_u64()).collect()
 	};
